@@ -36,7 +36,8 @@ RULE = ("programs: (a) scenario enumeration: every (aliasing operation A, observ
         "which some result shares a run object or is identical to an operand AND some memo field was filled before that step")
 ASSUMPTIONS = ["texts contain no ESC (fmtstr(str) would parse them; C17) and no lone surrogates",
                "operands of + / join / splice are FmtStr or str (other types raise TypeError/NotImplemented: outside)",
-               "splice/append positions are non-negative ints",
+               "splice/append positions are non-negative ints with start <= end (the domain of C09; for end < start the code "
+               "slices runs with negative offsets, which the value-level splice model does not cover)",
                "the garbage objects an operation allocates and drops (temporary lists, intermediate FmtStr of *, fmtstr's "
                "from_str object) are modelled but cannot be observed on the real side; only pool values are compared"]
 TRUSTED = ["C13: the heap model's notion of object identity/aliasing (lean/Curtsies/Model/Heap.lean), validated per run by "
@@ -154,7 +155,7 @@ def deleg_data(s, name, args):
     except Exception as e:  # noqa: BLE001
         return wire.exc_kind(e)
     if isinstance(r, bytes):
-        return "E:ValueError"      # fmtstr(bytes) -> "Bad Args"
+        return "bytes"             # fmtstr(bytes, **self.shared_atts): shared_atts is evaluated, then "Bad Args"
     if isinstance(r, str):
         return "L" + wire.enc_tf(r)
     if isinstance(r, list):
@@ -229,7 +230,16 @@ def exec_step(d, pool):
         except Exception:  # noqa: BLE001
             lines = []
         toks = [wire.enc_fmt(l) + "~" + ("1" if wcswidth(raw_s(l)) == d["cols"] else "0") for l in lines]
-        return ["wsplit", str(a), str(d["cols"])] + toks, (lambda: ("refs", list(f.width_aware_splitlines(d["cols"]))))
+
+        def run():
+            # the generator is stepped by hand: each yielded line is looked at BEFORE the generator resumes
+            # (and runs `del chunks_of_line[:]`), so that a line sharing the local list would be seen to change
+            out, early = [], []
+            for l in f.width_aware_splitlines(d["cols"]):
+                out.append(l)
+                early.append(key_of(l))
+            return ("refs", out, early)
+        return ["wsplit", str(a), str(d["cols"])] + toks, run
     if op == "deleg":
         args = tuple(d["args"])
 
@@ -240,7 +250,10 @@ def exec_step(d, pool):
             if isinstance(r, list):
                 return ("refs", list(r))
             return ("refs", [])
-        return ["deleg", str(a), deleg_data(raw_s(f), d["name"], args), shared_token(f)], run
+        data, sh = deleg_data(raw_s(f), d["name"], args), shared_token(f)
+        if data == "bytes":
+            data = sh if sh.startswith("E:") else "E:ValueError"
+        return ["deleg", str(a), data, sh], run
     if op == "str":
         return ["str", str(a)], (lambda: ("text", str(f)))
     if op == "len":
@@ -289,15 +302,16 @@ def run_program(case, collect=None):
         before_chunks = {id(c) for p in pool for c in p.chunks}
         obs_key = key_of(pool[d["a"]]) if d["op"] in OBS + ("colorstr",) else None
         try:
-            kind, val = thunk()
+            out = thunk()
+            kind, val = out[0], out[1]
             if kind == "refs":
                 res = "r%d" % len(val)
-                for r in val:
+                for j, r in enumerate(val):
                     if id(r) in before_ids or any(id(c) in before_chunks for c in r.chunks):
                         if memo_filled:
                             stats["aliasing_after_memo"] = True
                     pool.append(r)
-                    first.append(None)
+                    first.append(oracle_view(view_of_key(out[2][j])) if len(out) > 2 else None)
             elif kind == "text":
                 res = "t" + wire.enc_text(val)
             elif kind == "int":
@@ -343,7 +357,12 @@ def run_program(case, collect=None):
                     if m != fresh_color_str(*ck):
                         findings.append(("step %d (%s): color_str memo of a run of pool[%d] is %r, fresh %r" % (i, d["op"], k, m, fresh_color_str(*ck)), d))
             ents.append(entry(p, key, v))
-        steps_out.append("%s D1 # %s" % (res, " ".join(ents)))
+        # D1 = "the model's operation follows the discipline" - expected for every step except the known in-place
+        # re-initialisation of an attribute dict (D24), which the checked interpreter must refuse
+        dflag = "D0" if (d["op"] == "attsmut" and d["name"] == "__init__" and res == "returned") else "D1"
+        if res == "returned":
+            res = "r0"
+        steps_out.append("%s %s # %s" % (res, dflag, " ".join(ents)))
         stats["ops"].append(d["op"])
     # final sweep through the public API: memoised == first snapshot == FmtStr(*f.chunks)
     for k, p in enumerate(pool):
@@ -359,6 +378,7 @@ def run_program(case, collect=None):
         again = pub(FmtStr(*p.chunks))
         if again != got:
             findings.append(("end: FmtStr(*f.chunks) of pool[%d] gives %r, memoised %r" % (k, again, got), None))
+    stats["chars"] = set("".join(raw_s(p) for p in pool))
     return "ok " + " / ".join(steps_out), findings, stats
 
 
@@ -481,7 +501,7 @@ def pick_step(r, pool, muts):
         if r.random() < 0.35:
             new = ["s", ""] if r.random() < 0.5 else new
         start = r.randint(0, L + 1)
-        end = r.choice([None, None, start, r.randint(0, L + 1), r.randint(start, L + 1)])
+        end = r.choice([None, None, start, r.randint(start, L + 2), r.randint(start, L + 1)])
         return dict(op="splice", a=a, new=new, start=start, end=end)
     if kind == "append":
         return dict(op="append", a=a, new=rarg(r, pool, small) if r.random() < 0.7 else ["s", ""])
@@ -537,9 +557,9 @@ def gen_random(r, nsteps, muts):
         while k < len(steps):
             _, thunk = exec_step(steps[k], pool)
             try:
-                kind, val = thunk()
-                if kind == "refs":
-                    pool.extend(val)
+                out = thunk()
+                if out[0] == "refs":
+                    pool.extend(out[1])
             except Exception:  # noqa: BLE001
                 pass
             k += 1
@@ -593,9 +613,9 @@ def run_quiet(steps):
     for d in steps:
         _, thunk = exec_step(d, pool)
         try:
-            kind, val = thunk()
-            if kind == "refs":
-                pool.extend(val)
+            out = thunk()
+            if out[0] == "refs":
+                pool.extend(out[1])
         except Exception:  # noqa: BLE001
             pass
     return pool
@@ -621,18 +641,29 @@ def gen_scenarios(thorough):
     return out
 
 
+def strings_in(x, acc):
+    if isinstance(x, str):
+        acc.update(x)
+    elif isinstance(x, dict):
+        for v in x.values():
+            strings_in(v, acc)
+    elif isinstance(x, (list, tuple)):
+        for v in x:
+            strings_in(v, acc)
+
+
 def make_line(case):
+    """request line; the wcwidth table lists every character of every text and every value of the program
+    (str methods create characters the generator never wrote, e.g. 'Ｅ'.lower())"""
     toks = []
-    run_program(case, collect=toks)
-    return "heap %s / %s" % (ENV, " / ".join(" ".join(t) for t in toks))
-
-
-ENV = None
+    _, _, stats = run_program(case, collect=toks)
+    chars = set(stats["chars"])
+    strings_in(case["steps"], chars)
+    env = widthenv.env_fields("".join(sorted(chars)))
+    return "heap %s / %s" % (env, " / ".join(" ".join(t) for t in toks))
 
 
 def mk_cases(ctx):
-    global ENV
-    ENV = widthenv.env_fields(ALPHABET + RARE + "xyz*,.0123456789ABCXYZ\t")
     muts_all = dict_mutators()
     open_ids = {e["id"] for e in lib.known_findings(PROP) if e.get("status") == "open"}
     muts = [m for m in muts_all if not (m[0] == "__init__" and KNOWN_INIT_ID in open_ids)]
@@ -640,7 +671,7 @@ def mk_cases(ctx):
     ctx.exhaustive.append("scenarios: %d aliasing operations x %d observation sets before x %d follow-ups = %d programs"
                           % (len(ALIASING), len(cases) // (len(ALIASING) * len(FOLLOW)), len(FOLLOW), len(cases)))
     r = ctx.rng
-    nprog, maxsteps = (2500, 40) if ctx.thorough else (260, 15)
+    nprog, maxsteps = (30000, 40) if ctx.thorough else (1500, 15)
     for _ in range(nprog):
         cases.append(gen_random(r, r.randint(6, maxsteps), muts))
     for c in cases:
@@ -687,6 +718,19 @@ def guard_oracle(c):
     return None
 
 
+def witness_cases():
+    """the Lean witness C13_init_witness (f = bold(red('a')); str(f); f.chunks[0].atts.__init__({'bold': False})) and
+    two variations, replayed on the real code: model and code must agree that the dict changes in place"""
+    out = []
+    for chunks, args in (([("a", {"fg": 31, "bold": True})], [{"bold": False}]),
+                         ([("ab", {}), ("c", {"bg": 44})], [[["italic", True]]]),
+                         ([("a", {"fg": 31})], [])):
+        steps = [dict(op="lit", chunks=chunks), dict(op="str", a=0), dict(op="copy", a=0),
+                 dict(op="attsmut", a=0, k=0, name="__init__", args=args), dict(op="len", a=1), dict(op="add", a=0, b=1)]
+        out.append(dict(kind="witness", steps=steps))
+    return out
+
+
 def footprint(case, what):
     if isinstance(case, dict) and case.get("g") == "attsmut" and case.get("name") == "__init__" and "did not raise" in what:
         return KNOWN_INIT_ID
@@ -714,6 +758,13 @@ def check(ctx):
         for what, d in findings[:3]:
             ctx.violation(what, small, footprint(d, what) if d else None)
     ctx.note("dict mutators found in dir(dict) at run time: %s" % sorted({m[0] for m in muts_all}))
+    if KNOWN_INIT_ID in {e["id"] for e in lib.known_findings(PROP) if e.get("status") == "open"}:
+        wcs = witness_cases()
+        for c in wcs:
+            c["line"] = make_line(c)
+        ctx.tie("C13/D24-witness", wcs, lambda c: c["line"], lambda c: run_program(c)[0], canon, canon)
+        for c in wcs:
+            ctx.count(dict(kind="witness", steps=c["steps"]), nontrivial=True, tag="witness")
     gcs = guard_cases(muts_all)
     ctx.exhaustive.append("guards: f[0]='x' and %d (method, args) mutators x 3 values x memo filled/unfilled = %d cases" % (len(muts_all), len(gcs)))
     for c in gcs:
@@ -738,11 +789,9 @@ def search(ctx):
 
 
 def replay(payload):
-    global ENV
     c = payload["case"]
     if c.get("kind") == "guard":
         return dict(case=c, oracle=guard_oracle(c))
-    ENV = widthenv.env_fields(ALPHABET + RARE + "xyz*,.0123456789ABCXYZ\t")
     reply, findings, _ = run_program(c)
     line = make_line(c)
     model = lib.run_driver([line])[0]
